@@ -90,7 +90,14 @@ func mkStream(r *rand.Rand, domain uint32, short bool, badAt int, badKind int) s
 				add(m, "bad:version")
 			case 3: // header length below 16
 				m := refipfix.BuildMessage(domain, seq, 1, tid, nil)
-				binary.BigEndian.PutUint16(m[2:4], uint16([]int{0, 1, 4, 15}[r.IntN(4)]))
+				l := []int{0, 1, 4, 15, 5 + r.IntN(10)}[r.IntN(5)]
+				binary.BigEndian.PutUint16(m[2:4], uint16(l))
+				if r.IntN(2) == 0 {
+					// a runt: the message is complete by its own length field, shorter than a header, and the last
+					// thing on the stream (the client stays connected): nothing more is needed to know it is undecodable
+					add(m[:max(l, 4)], "bad:runt-at-end-of-stream")
+					return s
+				}
 				add(m, "bad:length<16")
 			case 4: // record truncated inside the message (lengths consistent)
 				rec := gen.Records(r, pool, 1, 2000)
@@ -389,7 +396,7 @@ func main() {
 			break
 		}
 		if inside {
-			c.Nontrivial(hx.H64(s.bytes[16:], fmt.Sprint(cuts)))
+			c.Nontrivial(hx.H64(s.bytes[min(16, len(s.bytes)):], fmt.Sprint(cuts)))
 		}
 		coll.Forget(domain)
 		if (k/c.NBatch)%1500 == 0 {
